@@ -238,8 +238,25 @@ def run_shard(vh, cases, cwd=None, env=None, per_case_timeout=20.0, keep_stdout=
     return results
 
 
-def run_cases(cases, lane="rel", cwd=None, env=None, jobs=None, per_case_timeout=20.0, shard_size=None, bad_ops=None):
-    """Shard cases over up to 16 children. Returns {id: Obs}."""
+# inputs every parser of the family rejects: run between the cases of a round-trip campaign (same process, same thread),
+# so that state left behind by a rejected call - a buffer, a cache, a thread-local - shows up as a wrong round trip
+POISON = {
+    "json": [("json.parse.split", [b"[12x]"]), ("json.parse.l_i64", [b"[5, 6y]"]), ("json.parse.l_str", [b'["caf\xc3\xa9", "b']), ("json.parse.props", [b'{"a": tru']),
+             ("json.parse.l_f64", [b"[1.2.3]"]), ("json.parse.split", [b'[{"a": [1, 2}']), ("json.parse.l_obj", [b'[{"s": "x"}, {']), ("json.parse.struct", [b'{"s": "unterminated']),
+             ("json.parse.l_i8", [b"[--1]"]), ("json.parse.props", [b'{"k": [1, 2, ']), ("json.parse.l_bool", [b"[true, fals"])],
+    "http": [("req.parse", [b"BOGUS /left-over-target?left=over HTTP/1.1\r\nX-Left: over\r\n\r\nleft-over-body"]), ("req.parse", [b"GET / HTTP/9.9\r\nRange: bytes=5-6\r\n\r\n"]),
+             ("req.parse", [b"\xff\xfe GET"]), ("resp.parse", [b"HTTP/1.1 999 Nope\r\nX-Left: over\r\n\r\nleft-over"]), ("resp.parse", [b"HTTP/1.1 200 OK\r\nContent-Type: multipart/byteranges; boundary=LEFT\r\n\r\n--LEFT\r\nContent-Type: a/b\r\n"]),
+             ("resp._parse", [b"HTTP/1.1 200 Wrong Phrase\r\n\r\nx"]), ("hdr.parse", [b"no separator here"]), ("range.parse", [b"100", b"9-x"]), ("range.crhv", [b"bytes x-y/z"])],
+    "multipart": [("mp.parse", [b"LEFT", b"--LEFT\r\nContent-Disposition: form-data; name=\"left\"\r\n\r\nleft-over value"]), ("mp.parse", [b"b", b"no boundary at all"]),
+                  ("mp.parse", [b"b", b"--b\r\n\r\nno headers\r\n--b--\r\n"]), ("mp.boundary", [b"multipart/form-data"]), ("cd.parse", [b"form-data; name=\"left"])],
+    "form": [("form.parse", [b"left=%zz&over=%"]), ("query.parse", [b"%&=&&=%E4"]), ("url.decode", [b"%E4%B8"]), ("form.parse", [b"\xff=\xfe"]), ("req.uri", [b"/x?left=over&%"])],
+    "b64": [("b64.decode", [b"@@@@"]), ("b64.decode", [b"QQ="]), ("b64.decode", ["caf\u00e9".encode()]), ("b64.decode", [b"QUJD*"])],
+}
+
+
+def run_cases(cases, lane="rel", cwd=None, env=None, jobs=None, per_case_timeout=20.0, shard_size=None, bad_ops=None, poison=None, poison_every=5):
+    """Shard cases over up to 16 children. Returns {id: Obs}.  poison: name(s) of POISON families whose rejected inputs are
+    interleaved with the cases (one after every `poison_every` cases); their observations are returned under ids '~p...'."""
     if not cases:
         return {}
     vh = build.harness(lane)
@@ -248,6 +265,20 @@ def run_cases(cases, lane="rel", cwd=None, env=None, jobs=None, per_case_timeout
         shard_size = max(1, min(2000, (len(cases) + jobs - 1) // jobs))
     nsh = max(1, (len(cases) + shard_size - 1) // shard_size)
     shards = [cases[i::nsh] for i in range(nsh)]   # interleaved, so one slow entry point does not pile up in one shard
+    if poison:
+        fam = []
+        for name in ([poison] if isinstance(poison, str) else poison):
+            fam += POISON[name]
+        mixed = []
+        for si, sh in enumerate(shards):
+            m = []
+            for j, cs in enumerate(sh):
+                if j % poison_every == 0:
+                    op, fields = fam[(si + j // poison_every) % len(fam)]
+                    m.append(Case("~p%d-%d" % (si, j), op, list(fields)))
+                m.append(cs)
+            mixed.append(m)
+        shards = mixed
     out = {}
     bad_ops = {} if bad_ops is None else bad_ops
     with ThreadPoolExecutor(max_workers=jobs) as ex:
